@@ -144,6 +144,12 @@ class GVN:
         return f_clean(out)
 
     def describe(self, f: Form, depth: int = 0) -> str:
+        try:
+            return self._describe(f, depth)
+        except Exception:  # rendering must never turn a verdict into a crash
+            return f"<{len(f)} atoms>"
+
+    def _describe(self, f: Form, depth: int = 0) -> str:
         parts = []
         for a, c in sorted(f.items()):
             cs = f"{c[0]}" if c[1] == 0 else f"({c[0]}+{c[1]}j)"
@@ -158,11 +164,20 @@ class GVN:
             return k[1]
         if depth > 3:
             return f"#{a}"
+        def is_form(x):
+            return isinstance(x, tuple) and x and all(
+                isinstance(e, tuple) and len(e) == 2 and isinstance(e[0], int)
+                and isinstance(e[1], tuple) and len(e[1]) == 2 and isinstance(e[1][0], Fraction)
+                for e in x)
+
         def sub(x):
+            if isinstance(x, bool):
+                return str(x)
             if isinstance(x, int):
-                return self.describe_atom(x, depth + 1)
-            if isinstance(x, tuple) and x and isinstance(x[0], tuple) and len(x[0]) == 2 and \
-                    isinstance(x[0][0], int) and isinstance(x[0][1], tuple):
+                if k[0] in ("perm",):
+                    return str(x)
+                return self.describe_atom(x, depth + 1) if 0 <= x < len(self.atom_keys) else str(x)
+            if is_form(x):
                 return "{" + self.describe(dict(x), depth + 1) + "}"
             if isinstance(x, tuple):
                 return "(" + ",".join(sub(y) for y in x) + ")"
@@ -403,18 +418,44 @@ class GVN:
     def _getitem(self, t: T) -> Form:
         base, idx = t.args
         v = self._n(base)
-        if idx.op == "const" and isinstance(idx.args[0], int):
-            i = idx.args[0]
-            vv = f_clean(v)
-            if len(vv) == 1:
-                (a, c), = vv.items()
-                k = self.atom_keys[a]
-                if k[0] == "seq" and -len(k[1]) <= i < len(k[1]):
-                    return self.scale(dict(k[1][i]), c)
-                if k[0] == "stackseq" and -len(k[1]) <= i < len(k[1]):
-                    return self.scale(dict(k[1][i]), c)
         key = self.sshow(idx, maxdepth=6)
-        return self.lin1(v, lambda a: self.atom("get", a, key) if a != 0 else 0)
+        i = idx.args[0] if idx.op == "const" and isinstance(idx.args[0], int) and not isinstance(
+            idx.args[0], bool) else None
+
+        def pick(a: int):
+            if a == 0:
+                return 0
+            k = self.atom_keys[a]
+            if i is not None and k[0] in ("seq", "stackseq") and -len(k[1]) <= i < len(k[1]):
+                return dict(k[1][i])
+            r = self.atom("get", a, key)
+            if self._sub and self.hyp:
+                rw = self._atom_rewrites().get(r)
+                if rw is not None:
+                    return dict(rw)
+            return r
+
+        return self.lin1(v, pick)
+
+    def _atom_rewrites(self) -> Dict[int, Form]:
+        """Hypotheses whose left side is a subscript: also applied when the same slot is
+        reached through arithmetic (e.g. (h1 - c)[1] == h1[1] - c[1])."""
+        rw = self.__dict__.get("_rw")
+        if rw is None:
+            rw = {}
+            self.__dict__["_rw"] = rw
+            old = self._sub
+            self._sub = False
+            try:
+                for k, v in list(self.hyp.items()):
+                    if k.op != "getitem":
+                        continue
+                    fk = f_clean(self._n(k))
+                    if len(fk) == 1 and list(fk.values())[0] == ONEC:
+                        rw[list(fk)[0]] = self._n(v)
+            finally:
+                self._sub = old
+        return rw
 
     def _is_leaf_chain(self, t: T) -> bool:
         while t.op == "getitem":
